@@ -3,10 +3,12 @@
    splitEqual (chunks concatenate back to the fiber; every chunk but the last has exactly n
    elements, none is empty) on the very function the interpreter uses (Rt.chunks), and the
    leader/follower boundary law ("no pair of elements that must meet is separated or met
-   twice").  NOT a theorem yet (hence _partial): the statement about whole emitted programs;
+   twice"); and (theorems C03_rt_...) the laws of the runtime operations themselves (Rt.split_equal,
+   Rt.split_nonuniform, Rt.merge1, Rt.flatten1, Rt.unflatten1, Rt.tswizzle) for tries of ANY size: occupancy
+   splits are undone by mergeRanks, flattenRanks by unflattenRanks, identity swizzle is the identity.  NOT a theorem yet (hence _partial): the statement about whole emitted programs;
    that half is kernel-evaluated execution of every emitted program (tools/props/c03.py). *)
 From Coq Require Import ZArith List Sorted.
-Require Import TV.Model.Rt TV.Proofs.OccLaws.
+Require Import TV.Model.Rt TV.Proofs.OccLaws TV.Proofs.RtLaws.
 Import ListNotations.
 
 Theorem C03_split_equal_concat_partial : forall (A : Type) (n : nat), (0 < n)%nat ->
@@ -22,3 +24,53 @@ Proof. intros A n Hn fuel l Hl. split; [apply chunks_sizes; assumption|apply chu
 Theorem C03_leader_follower_meet_partial : forall bs b c, StronglySorted Z.lt bs -> in_part bs b c ->
   part_of bs c = Some b /\ forall b', in_part bs b' c -> b' = b.
 Proof. exact leader_follower_meet. Qed.
+
+(* ---- laws of the modelled runtime operations (Proofs/RtLaws.v) ---- *)
+Open Scope Z_scope.
+
+(* (d) splitEqual(n) then mergeRanks is the identity *)
+Theorem C03_rt_split_equal_merge1 : forall n l, 0 < n -> int_sorted l ->
+  exists t', split_equal n (TNode l) = Some t' /\ merge1 t' = Some (TNode l).
+Proof. exact split_equal_merge1. Qed.
+
+Theorem C03_rt_split_equal_partition : forall n l, 0 < n -> int_sorted l ->
+  exists parts, split_equal n (TNode l) = Some (TNode parts) /\
+    concat (lowers parts) = l /\
+    int_sorted parts /\
+    Forall (fun pt => exists c x ch, pt = (c, TNode ((c, x) :: ch)) /\ (length ((c, x) :: ch) <= Z.to_nat n)%nat) parts /\
+    (forall pre pt post, parts = pre ++ pt :: post -> post <> [] -> length (tchildren (snd pt)) = Z.to_nat n).
+Proof. exact split_equal_partition. Qed.
+
+(* (e) splitNonUniform(boundaries): consecutive non-empty pieces, element c lands in partition part_of zs c *)
+Theorem C03_rt_split_nonuniform_partition : forall zs l, StronglySorted Z.lt zs -> int_sorted l ->
+  match zs with b0 :: _ => forall ct, In ct l -> b0 <= kz ct | [] => l = [] end ->
+  exists parts, split_nonuniform (map VInt zs) (TNode l) = Some (TNode parts) /\
+    concat (lowers parts) = l /\
+    int_sorted parts /\
+    Forall (fun pt => exists b sel, pt = (VInt b, TNode sel) /\ sel <> [] /\ In b zs /\
+                                    forall ct, In ct sel <-> In ct l /\ in_part zs b (kz ct)) parts /\
+    (forall ct, In ct l -> exists b sel, In (VInt b, TNode sel) parts /\ In ct sel /\ part_of zs (kz ct) = Some b).
+Proof. exact split_nonuniform_partition. Qed.
+
+Theorem C03_rt_split_nonuniform_merge1 : forall zs l, StronglySorted Z.lt zs -> int_sorted l ->
+  match zs with b0 :: _ => forall ct, In ct l -> b0 <= kz ct | [] => l = [] end ->
+  exists t', split_nonuniform (map VInt zs) (TNode l) = Some t' /\ merge1 t' = Some (TNode l).
+Proof. exact split_nonuniform_merge1. Qed.
+
+(* (f) flattenRanks then unflattenRanks is the identity; paths are kept (first two coordinates paired), in
+   strictly increasing lexicographic order of the tuples *)
+Theorem C03_rt_flatten1_unflatten1 : forall l, wf2 l ->
+  exists t', flatten1 (TNode l) = Some t' /\ unflatten1 t' = Some (TNode l).
+Proof. exact flatten1_unflatten1. Qed.
+
+Theorem C03_rt_flatten1_paths : forall l, wf2 l ->
+  flatten1 (TNode l) = Some (TNode (fl2 l)) /\
+  paths (TNode (fl2 l)) = map pair2 (paths (TNode l)) /\
+  Forall tuple_key (fl2 l) /\ StronglySorted (fun x y => vltb (fst x) (fst y) = true) (fl2 l).
+Proof.
+  intros l H. split; [apply flatten1_eq; exact H|]. split; [apply flatten1_paths; exact H|apply flatten1_lex_sorted; exact H].
+Qed.
+
+(* (g) swizzleRanks by the identity order is the identity on well-formed depth-n tries *)
+Theorem C03_rt_tswizzle_id : forall n t, wft n t \/ t = TNode [] -> tswizzle (seq 0 n) t = t.
+Proof. exact tswizzle_id. Qed.
